@@ -53,7 +53,7 @@ var registry = map[string]propSpec{
 	"C05": {Test: "^TestC05$", Level: "model_checking"},
 	"C06": {Test: "^TestC06$", Level: "model_checking"},
 	"C07": {Test: "^TestC07$", Level: "model_checking"},
-	"C08": {Test: "^TestC08$", Level: "model_checking"},
+	"C08": {Test: "^TestC08$", Level: "model_checking", Profile: "pools"},
 	"C09": {Test: "^TestC09$", Level: "model_checking"},
 	"C10": {Test: "^TestC10$", Level: "model_checking"},
 	"C11": {Test: "^TestC11$", Level: "model_checking"},
